@@ -383,27 +383,39 @@ Proof.
     lra.
 Qed.
 
-(** the band exclusion of [plane_to_triangle], in the model's own quantities: when the extreme
-    vertices are on opposite sides, the direction cosine [l] that [_line_segment_to_plane]
-    tests against 1e-6 is outside the band *)
-Definition plane_triangle_band_ok (pp pn a b c : V3R) : Prop :=
-  let ts := map (fun q => dot (vsub q pp) pn) [a; b; c] in
-  let s := nth (argmin ts) [a; b; c] vzero in
-  let e := nth (argmax ts) [a; b; c] vzero in
-  nth (argmin ts) ts 0 * nth (argmax ts) ts 0 < 0 ->
-  let l := dot (fst (convert_segment_to_line s e)) pn in l = 0 \/ eps6 (O:=ROps) <= l * l.
 
-(** what the model returns, arm by arm, with no assumption on the band *)
+(** the point the model interpolates on the segment between two points that are strictly on opposite
+    sides of the plane (/repo e4c9460): it belongs to the segment and lies on the plane.  [fs], [fe]
+    are the signed distances of the end points; no unit normal is needed. *)
+Lemma crossing_interp (pp pn s e : V3R) (fs fe : R) :
+  fs = dot (vsub s pp) pn -> fe = dot (vsub e pp) pn -> fs < 0 < fe ->
+  segment_set s e (vadd s (vscale (fs / (fs - fe)) (vsub e s))) /\
+  plane_set pp pn (vadd s (vscale (fs / (fs - fe)) (vsub e s))).
+Proof.
+  intros Es Ee [Hs He]. split.
+  - exists (fs / (fs - fe)). split; [|reflexivity]. split.
+    + replace (fs / (fs - fe)) with (- fs * / (fe - fs)) by (field; lra).
+      apply Rmult_le_pos; [lra|]. left. apply Rinv_0_lt_compat. lra.
+    + apply Rmult_le_reg_r with (fe - fs); [lra|].
+      replace (fs / (fs - fe) * (fe - fs)) with (- fs) by (field; lra). lra.
+  - unfold plane_set. rewrite dot_sub_l, dot_add_l, dot_scale_l, dot_sub_l.
+    replace (dot e pn - dot s pn) with (fe - fs) by (rewrite Es, Ee, !dot_sub_l; ring).
+    replace (dot s pn) with (fs + dot pp pn) by (rewrite Es, dot_sub_l; ring).
+    field. lra.
+Qed.
+
+(** what the model returns, arm by arm *)
 Lemma plane_to_triangle_arms (pp pn a b c : V3R) d c1 c2 arm :
   plane_to_triangle pp pn a b c = (d, c1, c2, arm) ->
   let f := fun q => dot (vsub q pp) pn in
   let s := nth (argmin [f a; f b; f c]) [a; b; c] vzero in
   let e := nth (argmax [f a; f b; f c]) [a; b; c] vzero in
-  (f s < 0 < f e /\ f s = nth (argmin [f a; f b; f c]) [f a; f b; f c] 0 /\
+  (arm = 0%nat /\ f s < 0 < f e /\ f s = nth (argmin [f a; f b; f c]) [f a; f b; f c] 0 /\
    f e = nth (argmax [f a; f b; f c]) [f a; f b; f c] 0 /\
    triangle_set a b c s /\ triangle_set a b c e /\
-   line_segment_to_plane s e pp pn eps6 = (d, c1, c2)) \/
-  (exists i, (i < 3)%nat /\ d = Rabs (f (nth i [a; b; c] vzero)) /\
+   d = 0 /\ c1 = vadd s (vscale (f s / (f s - f e)) (vsub e s)) /\ c2 = c1) \/
+  (arm = 1%nat /\
+   exists i, (i < 3)%nat /\ d = Rabs (f (nth i [a; b; c] vzero)) /\
              c1 = vsub (nth i [a; b; c] vzero) (vscale (f (nth i [a; b; c] vzero)) pn) /\
              c2 = nth i [a; b; c] vzero /\
              d <= Rabs (f a) /\ d <= Rabs (f b) /\ d <= Rabs (f c) /\
@@ -421,12 +433,12 @@ Proof.
   set (tmin := nth imin [ta; tb; tc] 0) in *. set (tmax := nth imax [ta; tb; tc] 0) in *.
   destruct (Rltb (tmin * tmax) 0) eqn:E; rb_hyp E.
   - set (s := nth imin [a; b; c] vzero) in *. set (e := nth imax [a; b; c] vzero) in *.
-    destruct (line_segment_to_plane s e pp pn eps6) as [[d' c1'] c2'] eqn:Hls.
-    intros H. apply pair_equal_spec in H. destruct H as [H _].
+    intros H. apply pair_equal_spec in H. destruct H as [H <-].
     apply pair3_eq in H. destruct H as (<- & <- & <-). left.
     rewrite <- Emin, <- Emax.
-    split; [split; nra|]. split; [reflexivity|]. split; [reflexivity|].
-    split; [apply tri_vertex_in; exact Imin|]. split; [apply tri_vertex_in; exact Imax|]. reflexivity.
+    split; [reflexivity|]. split; [split; nra|]. split; [reflexivity|]. split; [reflexivity|].
+    split; [apply tri_vertex_in; exact Imin|]. split; [apply tri_vertex_in; exact Imax|].
+    split; [reflexivity|]. split; reflexivity.
   - destruct (argmin3_spec (Rabs ta) (Rabs tb) (Rabs tc)) as (Ic & Ca & Cb & Cc).
     set (ic := argmin [Rabs ta; Rabs tb; Rabs tc]) in *.
     assert (Ec : nth ic [Rabs ta; Rabs tb; Rabs tc] 0 = Rabs (nth ic [ta; tb; tc] 0))
@@ -434,73 +446,48 @@ Proof.
     assert (Et : nth ic [ta; tb; tc] 0 = dot (vsub (nth ic [a; b; c] vzero) pp) pn)
       by (apply (nth3_map (fun q => dot (vsub q pp) pn)); exact Ic).
     rewrite Ec, Et in Ca, Cb, Cc. rewrite Et.
-    intros H. apply pair_equal_spec in H. destruct H as [H _].
+    intros H. apply pair_equal_spec in H. destruct H as [H <-].
     apply pair3_eq in H. destruct H as (<- & <- & <-). right.
+    split; [reflexivity|].
     exists ic. split; [exact Ic|]. split; [reflexivity|]. split; [reflexivity|]. split; [reflexivity|].
     split; [exact Ca|]. split; [exact Cb|]. split; [exact Cc|].
     destruct (Rle_dec 0 tmin) as [P|N]; [left; lra|right].
     assert (tmax <= 0) by nra. lra.
 Qed.
 
-(** outside the band the opposite-sides arm finds a common point *)
+(** the opposite-sides arm returns a common point of the plane and the triangle (for ALL inputs:
+    no unit normal, no band); otherwise the closest vertex and its projection are returned *)
 Lemma plane_to_triangle_cases (pp pn a b c : V3R) d c1 c2 arm :
-  dot pn pn = 1 -> plane_triangle_band_ok pp pn a b c ->
   plane_to_triangle pp pn a b c = (d, c1, c2, arm) ->
   let f := fun q => dot (vsub q pp) pn in
-  (d = 0 /\ c1 = c2 /\ plane_set pp pn c1 /\ triangle_set a b c c1) \/
-  (exists i, (i < 3)%nat /\ d = Rabs (f (nth i [a; b; c] vzero)) /\
+  (arm = 0%nat /\ d = 0 /\ c1 = c2 /\ plane_set pp pn c1 /\ triangle_set a b c c1) \/
+  (arm = 1%nat /\
+   exists i, (i < 3)%nat /\ d = Rabs (f (nth i [a; b; c] vzero)) /\
              c1 = vsub (nth i [a; b; c] vzero) (vscale (f (nth i [a; b; c] vzero)) pn) /\
              c2 = nth i [a; b; c] vzero /\
              d <= Rabs (f a) /\ d <= Rabs (f b) /\ d <= Rabs (f c) /\
              ((0 <= f a /\ 0 <= f b /\ 0 <= f c) \/ (f a <= 0 /\ f b <= 0 /\ f c <= 0))).
 Proof.
-  intros Hu Hband H. unfold plane_triangle_band_ok in Hband. cbn [map] in Hband.
-  destruct (plane_to_triangle_arms pp pn a b c d c1 c2 arm H) as [(Hside & Es & Ee & Hs & He & Hls)|R];
-    [left|right; exact R].
-  rewrite <- Es, <- Ee in Hband.
-  assert (Hlt : dot (vsub (nth (argmin [dot (vsub a pp) pn; dot (vsub b pp) pn; dot (vsub c pp) pn]) [a; b; c] vzero) pp) pn *
-                dot (vsub (nth (argmax [dot (vsub a pp) pn; dot (vsub b pp) pn; dot (vsub c pp) pn]) [a; b; c] vzero) pp) pn < 0) by nra.
-  specialize (Hband Hlt).
-  assert (Hd0 : d = 0) by (eapply line_segment_to_plane_crossing; eauto using eps6_pos).
-  pose proof (line_segment_to_plane_feasible _ _ pp pn _ _ _ _ Hu eps6_pos Hls) as Hf.
-  destruct (feasible_zero_common _ _ _ _ _ Hf Hd0) as (Hc & Hseg & Hpl).
-  split; [exact Hd0|]. split; [exact Hc|]. split; [exact Hpl|].
+  intros H.
+  destruct (plane_to_triangle_arms pp pn a b c d c1 c2 arm H)
+    as [(Harm & Hside & _ & _ & Hs & He & Hd & Hc1 & Hc2)|R]; [left|right; exact R].
+  destruct (crossing_interp pp pn _ _ _ _ eq_refl eq_refl Hside) as [Hseg Hpl].
+  rewrite <- Hc1 in Hseg, Hpl.
+  split; [exact Harm|]. split; [exact Hd|]. split; [symmetry; exact Hc2|]. split; [exact Hpl|].
   exact (tri_segment_in a b c _ _ c1 Hs He Hseg).
 Qed.
 
-(** with no assumption on the band the returned pair is still feasible, but in the opposite-sides
-    arm the two points come back in the order (triangle point, plane point) *)
-Lemma plane_to_triangle_feasible_unordered (pp pn a b c : V3R) d c1 c2 arm :
+(** *** C10 / C11: feasible and optimal for every triangle (degenerate ones included) and every plane
+    with a unit normal.  Since /repo e4c9460 the opposite-sides arm interpolates the crossing point
+    instead of calling [_line_segment_to_plane] with a hard-wired 1e-6, so no band hypothesis is left. *)
+Lemma plane_to_triangle_feasible (pp pn a b c : V3R) d c1 c2 arm :
   dot pn pn = 1 ->
-  plane_to_triangle pp pn a b c = (d, c1, c2, arm) ->
-  feasible (plane_set pp pn) (triangle_set a b c) d c1 c2 \/
-  feasible (triangle_set a b c) (plane_set pp pn) d c1 c2.
-Proof.
-  intros Hu H.
-  destruct (plane_to_triangle_arms pp pn a b c d c1 c2 arm H)
-    as [(_ & _ & _ & Hs & He & Hls)|(i & Hi & -> & -> & -> & _)].
-  - right.
-    destruct (line_segment_to_plane_feasible _ _ pp pn _ _ _ _ Hu eps6_pos Hls) as (Hseg & Hpl & Hd & Hn).
-    split; [exact (tri_segment_in a b c _ _ c1 Hs He Hseg)|]. split; [exact Hpl|]. split; assumption.
-  - left. set (q := nth i [a; b; c] vzero). set (t := dot (vsub q pp) pn).
-    split.
-    { unfold plane_set. rewrite dot_sub_l, dot_sub_l, dot_scale_l, Hu. unfold t. rewrite dot_sub_l. ring. }
-    split; [apply tri_vertex_in; exact Hi|]. split; [apply Rabs_pos|].
-    symmetry. apply norm_abs_of_sq.
-    replace (vsub (vsub q (vscale t pn)) q) with (vscale (- t) pn) by veq.
-    rewrite dot_scale_l, dot_scale_r, Hu. ring.
-Qed.
-
-(** feasible / optimal outside the band ([plane_to_triangle] has no epsilon argument: 1e-6 is
-    hard-wired; see the refutations below for what happens inside the band) *)
-Lemma plane_to_triangle_feasible_partial (pp pn a b c : V3R) d c1 c2 arm :
-  dot pn pn = 1 -> plane_triangle_band_ok pp pn a b c ->
   plane_to_triangle pp pn a b c = (d, c1, c2, arm) ->
   feasible (plane_set pp pn) (triangle_set a b c) d c1 c2.
 Proof.
-  intros Hu Hband H.
-  destruct (plane_to_triangle_cases pp pn a b c d c1 c2 arm Hu Hband H)
-    as [(-> & <- & Hp & Ht)|(i & Hi & -> & -> & -> & _)].
+  intros Hu H.
+  destruct (plane_to_triangle_cases pp pn a b c d c1 c2 arm H)
+    as [(_ & -> & <- & Hp & Ht)|(_ & i & Hi & -> & -> & -> & _)].
   - apply feasible_common; assumption.
   - set (q := nth i [a; b; c] vzero). set (t := dot (vsub q pp) pn).
     split.
@@ -511,14 +498,14 @@ Proof.
     rewrite dot_scale_l, dot_scale_r, Hu. ring.
 Qed.
 
-Lemma plane_to_triangle_optimal_partial (pp pn a b c : V3R) d c1 c2 arm :
-  dot pn pn = 1 -> plane_triangle_band_ok pp pn a b c ->
+Lemma plane_to_triangle_optimal (pp pn a b c : V3R) d c1 c2 arm :
+  dot pn pn = 1 ->
   plane_to_triangle pp pn a b c = (d, c1, c2, arm) ->
   optimal (plane_set pp pn) (triangle_set a b c) d.
 Proof.
-  intros Hu Hband H.
-  destruct (plane_to_triangle_cases pp pn a b c d c1 c2 arm Hu Hband H)
-    as [(-> & _)|(i & Hi & _ & _ & _ & Ha & Hb & Hc & Hsign)].
+  intros Hu H.
+  destruct (plane_to_triangle_cases pp pn a b c d c1 c2 arm H)
+    as [(_ & -> & _)|(_ & i & Hi & _ & _ & _ & Ha & Hb & Hc & Hsign)].
   - apply optimal_zero.
   - intros y x Hy (v & w & Hv & Hw & Hs & ->).
     rewrite norm_sub_comm.
@@ -526,10 +513,8 @@ Proof.
     rewrite tri_signed. apply convex_abs_lower; assumption.
 Qed.
 
-(** ** inside the band the hard-wired 1e-6 makes [plane_to_triangle] wrong: a concrete witness.
-    Edge a-b crosses the plane at an angle of 2e-4 rad, so [_line_segment_to_plane] takes its
-    "parallel" arm and returns (|t_a|, a, projection of a): distance 1 instead of 0, and the
-    pair is (triangle point, plane point), i.e. swapped w.r.t. the documented order. *)
+(** evaluation of comparisons between closed real terms (used for the concrete examples here and
+    in DistPlaneHull.v) *)
 Ltac rb_dec :=
   match goal with
   | |- context [Rltb ?a ?b] =>
@@ -538,97 +523,20 @@ Ltac rb_dec :=
       first [rewrite (proj2 (Rleb_true a b)) by lra | rewrite (proj2 (Rleb_false a b)) by lra]
   end.
 
-Definition ptt_wit_pp : V3R := V 0 0 0.
-Definition ptt_wit_pn : V3R := V 0 0 1.
-Definition ptt_wit_a : V3R := V 0 0 (-1).
-Definition ptt_wit_b : V3R := V 99999999 0 19999.
-Definition ptt_wit_c : V3R := V 0 1 0.
-
-Lemma ptt_wit_norm : norm (vsub ptt_wit_b ptt_wit_a) = 100000001.
-Proof.
-  unfold norm, ptt_wit_b, ptt_wit_a. vunfold. cbn [sqrt ROps].
-  replace ((99999999 - 0) * (99999999 - 0) + (0 - 0) * (0 - 0) + (19999 - -1) * (19999 - -1))
-    with (100000001 * 100000001) by ring.
-  apply sqrt_square. lra.
-Qed.
-
-Lemma ptt_wit_eval : exists c2, plane_to_triangle ptt_wit_pp ptt_wit_pn ptt_wit_a ptt_wit_b ptt_wit_c = (1, ptt_wit_a, c2, 0%nat).
-Proof.
-  unfold plane_to_triangle, plane_to_points. cbn [map].
-  replace (dot (vsub ptt_wit_a ptt_wit_pp) ptt_wit_pn) with (-1) by (unfold ptt_wit_a, ptt_wit_pp, ptt_wit_pn; vunfold; ring).
-  replace (dot (vsub ptt_wit_b ptt_wit_pp) ptt_wit_pn) with 19999 by (unfold ptt_wit_b, ptt_wit_pp, ptt_wit_pn; vunfold; ring).
-  replace (dot (vsub ptt_wit_c ptt_wit_pp) ptt_wit_pn) with 0 by (unfold ptt_wit_c, ptt_wit_pp, ptt_wit_pn; vunfold; ring).
-  unfold argmin, argmax, argbest. ops_R. repeat rb_dec. cbn [nth]. rb_dec.
-  unfold line_segment_to_plane, line_segment_to_plane_full, convert_segment_to_line.
-  rewrite ptt_wit_norm. ops_R. rb_dec.
-  unfold line_to_plane_param.
-  replace (dot (vdivs (vsub ptt_wit_b ptt_wit_a) 100000001) ptt_wit_pn) with (20000 / 100000001)
-    by (unfold ptt_wit_a, ptt_wit_b, ptt_wit_pn; vunfold; field).
-  assert (Hb : Rltb (20000 / 100000001 * (20000 / 100000001)) (eps6 (O:=ROps)) = true).
-  { apply Rltb_true. unfold eps6. cbn [cst div ROps]. unfold Q2R. simpl. lra. }
-  ops_R. rewrite Hb. unfold point_to_plane. ops_R.
-  replace (dot ptt_wit_pn (vsub ptt_wit_a ptt_wit_pp)) with (-1) by (unfold ptt_wit_a, ptt_wit_pp, ptt_wit_pn; vunfold; ring).
-  replace (Rabs (-1)) with 1 by (unfold Rabs; destruct (Rcase_abs (-1)); lra). eexists. reflexivity.
-Qed.
-
-Lemma plane_to_triangle_feasible_refuted :
-  exists (pp pn a b c : V3R) (d : R) (c1 c2 : V3R) (arm : nat),
-    dot pn pn = 1 /\ plane_to_triangle pp pn a b c = (d, c1, c2, arm) /\ ~ feasible (plane_set pp pn) (triangle_set a b c) d c1 c2.
-Proof.
-  destruct ptt_wit_eval as [c2 H].
-  exists ptt_wit_pp, ptt_wit_pn, ptt_wit_a, ptt_wit_b, ptt_wit_c, 1, ptt_wit_a, c2, 0%nat.
-  split; [unfold ptt_wit_pn; vunfold; ring|]. split; [exact H|].
-  intros (Hp & _). unfold plane_set, ptt_wit_a, ptt_wit_pp, ptt_wit_pn in Hp. vunfold. lra.
-Qed.
-
-Lemma plane_to_triangle_optimal_refuted :
-  exists (pp pn a b c : V3R) (d : R) (c1 c2 : V3R) (arm : nat),
-    dot pn pn = 1 /\ plane_to_triangle pp pn a b c = (d, c1, c2, arm) /\ ~ optimal (plane_set pp pn) (triangle_set a b c) d.
-Proof.
-  destruct ptt_wit_eval as [c2 H].
-  exists ptt_wit_pp, ptt_wit_pn, ptt_wit_a, ptt_wit_b, ptt_wit_c, 1, ptt_wit_a, c2, 0%nat.
-  split; [unfold ptt_wit_pn; vunfold; ring|]. split; [exact H|].
-  intros Ho.
-  (* the point where the edge a-b crosses the plane *)
-  set (x := vadd ptt_wit_a (vadd (vscale (1 / 20000) (vsub ptt_wit_b ptt_wit_a)) (vscale 0 (vsub ptt_wit_c ptt_wit_a)))).
-  assert (Hx : triangle_set ptt_wit_a ptt_wit_b ptt_wit_c x).
-  { exists (1 / 20000), 0. repeat split; try lra. }
-  assert (Hp : plane_set ptt_wit_pp ptt_wit_pn x).
-  { unfold plane_set, x, ptt_wit_a, ptt_wit_b, ptt_wit_c, ptt_wit_pp, ptt_wit_pn. vunfold. field. }
-  specialize (Ho x x Hp Hx). rewrite norm_sub_self in Ho. lra.
-Qed.
-
-(** the band hypothesis is satisfiable by a triangle that really crosses the plane (opposite-sides arm) *)
-Example plane_triangle_band_ok_nonvacuous :
+(** the opposite-sides arm is reachable: a triangle that really crosses the plane *)
+Example plane_to_triangle_nonvacuous :
   let pp : V3R := V 0 0 0 in let pn : V3R := V 0 0 1 in
   let a : V3R := V 0 0 (-1) in let b : V3R := V 0 0 1 in let c : V3R := V 1 0 0 in
-  dot pn pn = 1 /\ plane_triangle_band_ok pp pn a b c /\
+  dot pn pn = 1 /\
   dot (vsub a pp) pn < 0 < dot (vsub b pp) pn /\
   exists x, plane_to_triangle pp pn a b c = (0, x, x, 0%nat).
 Proof.
   cbv zeta.
-  assert (Hn : norm (vsub (V 0 0 1) (V 0 0 (-1) : V3R)) = 2).
-  { unfold norm. vunfold. cbn [sqrt ROps].
-    replace ((0 - 0) * (0 - 0) + (0 - 0) * (0 - 0) + (1 - -1) * (1 - -1)) with (2 * 2) by ring.
-    apply sqrt_square. lra. }
-  assert (He : eps6 (O:=ROps) <= 1).
-  { unfold eps6. cbn [cst div ROps]. unfold Q2R. simpl. lra. }
   assert (Ta : dot (vsub (V 0 0 (-1)) (V 0 0 0 : V3R)) (V 0 0 1) = -1) by (vunfold; ring).
   assert (Tb : dot (vsub (V 0 0 1) (V 0 0 0 : V3R)) (V 0 0 1) = 1) by (vunfold; ring).
   assert (Tc : dot (vsub (V 1 0 0) (V 0 0 0 : V3R)) (V 0 0 1) = 0) by (vunfold; ring).
-  assert (Hl : dot (vdivs (vsub (V 0 0 1) (V 0 0 (-1) : V3R)) 2) (V 0 0 1) = 1) by (vunfold; field).
-  split; [vunfold; ring|]. split; [|split; [rewrite Ta, Tb; lra|]].
-  - unfold plane_triangle_band_ok. cbn [map]. rewrite Ta, Tb, Tc.
-    unfold argmin, argmax, argbest. ops_R. repeat rb_dec. cbn [nth]. intros _.
-    unfold convert_segment_to_line. rewrite Hn. ops_R. rb_dec. cbn [fst]. rewrite Hl. right. lra.
-  - unfold plane_to_triangle, plane_to_points. cbn [map]. rewrite Ta, Tb, Tc.
-    unfold argmin, argmax, argbest. ops_R. repeat rb_dec. cbn [nth]. rb_dec.
-    unfold line_segment_to_plane, line_segment_to_plane_full, convert_segment_to_line.
-    rewrite Hn. ops_R. rb_dec. unfold line_to_plane_param, hesse_d. rewrite Hl.
-    assert (Hb : Rltb (1 * 1) (eps6 (O:=ROps)) = false) by (apply Rltb_false; lra).
-    ops_R. rewrite Hb.
-    replace (dot (V 0 0 1) (vdivs (vsub (V 0 0 1) (V 0 0 (-1) : V3R)) 2)) with 1 by (rewrite dot_comm; symmetry; exact Hl).
-    replace (dot (V 0 0 0 : V3R) (V 0 0 1)) with 0 by (vunfold; ring).
-    replace (dot (V 0 0 1) (V 0 0 (-1) : V3R)) with (-1) by (vunfold; ring).
-    repeat rb_dec. cbn [andb]. eexists. reflexivity.
+  split; [vunfold; ring|]. split; [rewrite Ta, Tb; lra|].
+  unfold plane_to_triangle, plane_to_points. cbn [map]. rewrite Ta, Tb, Tc.
+  unfold argmin, argmax, argbest. ops_R. repeat rb_dec. cbn [nth]. rb_dec.
+  eexists. reflexivity.
 Qed.
